@@ -52,7 +52,8 @@ def main() -> int:
             run.count(0)
             for v in run.violations:
                 pass
-            print("REPLAY %s: %s" % (args.replay, "still violates" if not ok else "holds"))
+            verdict = "still violates" if not ok else ("reproduces a listed known finding" if run.excluded_known else "holds")
+            print("REPLAY %s: %s" % (args.replay, verdict))
             return 0 if ok else 1
         # committed regression replays (sensitivity witnesses and fixed findings) run first
         rdir = os.path.join(VERIF, "replays", pid)
